@@ -136,22 +136,10 @@ def stripLow (U : List Nat) : Nat × Nat × Buf × Nat × Bool :=
     let b := (Buf.new usize).write 0 T                                        -- :88, :95 MPN_COPY
     (zl, zb, b.1, usize, b.2)
 
-/-- gcd.c:79-155, the general arm (usize, vsize ≥ 2).  `gsize - minus` = the size requested from MPZ_REALLOC (`gsize` in the
-    C); `always` = the WRONG variant that stores `tp[vsize] = cy_limb` unconditionally. -/
-def gcdGeneral (minus : Nat) (always : Bool) (s : St) (g : Nat) (up : Ptr) (usize : Nat) (vp : Ptr) (vsize : Nat) : St :=
-  let U := s.rd up usize
-  let V := s.rd vp vsize
-  let s := s.chk (s.rdOk up usize && s.rdOk vp vsize)                         -- the loads of :82-95, :97-110
-  let (uzl, uzb, ub, usize, uok) := stripLow U                                -- :82-95
-  let (vzl, vzb, vb, vsize, vok) := stripLow V                                -- :97-110
-  let s := s.chk (uok && vok)
-  let (gzl, gzb) :=
-    if uzl > vzl then (vzl, vzb)                                              -- :112-116
-    else if uzl < vzl then (uzl, uzb)                                         -- :117-121
-    else (uzl, min uzb vzb)                                                   -- :122-126
-  -- :129-131 mpn_gcd (vp, …): the contract (C07): at most min (usize, vsize) limbs stored at vp, their count returned
-  let G := natLimbs (Nat.gcd (val ((ub.read 0 usize).1)) (val ((vb.read 0 vsize).1)))
-  let s := s.chk (decide (G.length ≤ vb.alloc))                               -- the store into vp's TMP block
+/-- gcd.c:133-154: G <-- V << (g_zero_limbs * GMP_LIMB_BITS + g_zero_bits), `G` = the limbs mpn_gcd left at vp (TMP space).
+    `gsize - minus` = the size requested from MPZ_REALLOC (`gsize` in the C); `always` = the WRONG variant that stores
+    `tp[vsize] = cy_limb` unconditionally. -/
+def gcdTail (minus : Nat) (always : Bool) (s : St) (g : Nat) (G : List Nat) (gzl gzb : Nat) : St :=
   let vsize := G.length                                                       -- :129
   let gsize := vsize + gzl                                                    -- :134
   if gzb != 0 then                                                            -- :135
@@ -168,6 +156,23 @@ def gcdGeneral (minus : Nat) (always : Bool) (s : St) (g : Nat) (up : Ptr) (usiz
     let s := MPN_ZERO s (s.PTR g) gzl                                         -- :150
     let s := s.wr ((s.PTR g).add gzl) G                                       -- :151 MPN_COPY (PTR (g) + g_zero_limbs, vp, vsize)
     s.setSize g gsize                                                         -- :154
+
+/-- gcd.c:79-155, the general arm (usize, vsize ≥ 2) -/
+def gcdGeneral (minus : Nat) (always : Bool) (s : St) (g : Nat) (up : Ptr) (usize : Nat) (vp : Ptr) (vsize : Nat) : St :=
+  let U := s.rd up usize
+  let V := s.rd vp vsize
+  let s := s.chk (s.rdOk up usize && s.rdOk vp vsize)                         -- the loads of :82-95, :97-110
+  let (uzl, uzb, ub, usize, uok) := stripLow U                                -- :82-95
+  let (vzl, vzb, vb, vsize, vok) := stripLow V                                -- :97-110
+  let s := s.chk (uok && vok)
+  let (gzl, gzb) :=
+    if uzl > vzl then (vzl, vzb)                                              -- :112-116
+    else if uzl < vzl then (uzl, uzb)                                         -- :117-121
+    else (uzl, min uzb vzb)                                                   -- :122-126
+  -- :129-131 mpn_gcd (vp, …): the contract (C07): at most min (usize, vsize) limbs stored at vp, their count returned
+  let G := natLimbs (Nat.gcd (val ((ub.read 0 usize).1)) (val ((vb.read 0 vsize).1)))
+  let s := s.chk (decide (G.length ≤ vb.alloc))                               -- the store into vp's TMP block
+  gcdTail minus always s g G gzl gzb                                          -- :133-154
 
 /-- mpz_gcd (g, u, v), gcd.c:26-156 -/
 def gcd_ (minus : Nat) (always : Bool) (s : St) (g u v : Nat) : St :=
